@@ -103,12 +103,16 @@ class W:
         from custom_components.pyscript.global_ctx import GlobalContextMgr
         a = AstEval(ctx_name, GlobalContextMgr.get(ctx_name))
         Function.install_ast_funcs(a)
+        # older AstEval versions collect exceptions (get_exception_obj); the pinned one raises them
+        get_exc = getattr(a, "get_exception_obj", lambda: None)
         a.parse(src)
-        if a.get_exception_obj():
-            raise a.get_exception_obj()
-        r = await a.eval()
-        exc = a.get_exception_obj()
-        await settle(self.loop)
+        if get_exc():
+            raise get_exc()
+        try:
+            r = await a.eval()
+        finally:
+            await settle(self.loop)
+        exc = get_exc()
         if exc:
             raise exc
         return r
